@@ -125,11 +125,11 @@ def access_path(fn, x, transparent=(), depth=64):
             elif k in ("ref", "copyderef", "rawptr"):
                 proj = list(rv["pl"]["p"]) + proj
                 l = rv["pl"]["l"]
-            elif k == "agg" and rv.get("agg") in ("tuple", "adt"):
-                # project into an aggregate built here: (a, b).0 is a
+            elif k == "agg" and rv.get("agg") in ("tuple", "adt", "closure", "coroutine"):
+                # project into an aggregate built here: (a, b).0 is a; a captured variable of a closure / spliced async block is the captured operand
                 fields = [e for e in proj if e != "*"]
                 if fields and isinstance(fields[0], dict) and "f" in fields[0] and fields[0]["f"] < len(rv["ops"]) and \
-                        (rv.get("agg") == "tuple" or (fn.facts.adts.get(rv.get("adt"), {}).get("kind") == "struct")):
+                        (rv.get("agg") in ("tuple", "closure", "coroutine") or (fn.facts.adts.get(rv.get("adt"), {}).get("kind") == "struct")):
                     op = rv["ops"][fields[0]["f"]]
                     rest = fields[1:]
                     if op.get("k") not in ("copy", "move"):
@@ -268,9 +268,9 @@ def _follow(fn, l, proj, kind, node, bb, rxs):
             return ("cont", op["pl"]["l"], list(op["pl"]["p"]) + proj, None)
         if k in ("ref", "copyderef", "rawptr"):
             return ("cont", rv["pl"]["l"], list(rv["pl"]["p"]) + proj, None)
-        if k == "agg" and rv.get("agg") in ("tuple", "adt"):
+        if k == "agg" and rv.get("agg") in ("tuple", "adt", "closure", "coroutine"):
             fields = [e for e in proj if e != "*"]
-            is_struct = rv.get("agg") == "tuple" or fn.facts.adts.get(rv.get("adt"), {}).get("kind") == "struct"
+            is_struct = rv.get("agg") in ("tuple", "closure", "coroutine") or fn.facts.adts.get(rv.get("adt"), {}).get("kind") == "struct"
             if is_struct and fields and isinstance(fields[0], dict) and "f" in fields[0] and fields[0]["f"] < len(rv["ops"]):
                 op = rv["ops"][fields[0]["f"]]
                 rest = fields[1:]
